@@ -409,14 +409,14 @@ func main() {
 	var runs []run
 	b := drv.Pick(c, 2, 3)
 	for _, k := range []string{"tcp", "tcp0", "tcpmux", "http"} {
-		runs = append(runs, run{k + "/params", 1}, run{k + "/race", b}, run{k + "/deliver2", b})
+		runs = append(runs, run{k + "/params", 1}, run{k + "/race", b}, run{k + "/deliver2", b - 1})
 	}
 	runs = append(runs, run{"http/rotate", 0})
 	if !c.Quick() {
 		runs = append(runs, run{"tcp/deliver3", 2}, run{"tcpmux/deliver3", 2})
 	}
 	for i, r := range runs {
-		c.Explore(r.scn, r.bound, 1.0/float64(len(runs)-i))
+		c.ExploreBoth(r.scn, r.bound, 1.0/float64(len(runs)-i))
 	}
 	c.Finish()
 }
